@@ -6,7 +6,7 @@ NOT_APPLICABLE = {
     "C16": "The token-tiling invariant is a pure function of the input string observed on a deterministic token stream; no state, schedule or fault is involved.",
 }
 PENDING = {p: "not claimed yet: the simulated scenario for this property is designed (DESIGN.md section 5) but its check is still being built" for p in
-           ["C05", "C08", "C12", "C13", "C17", "C19", "C20"]}
+           ["C08", "C12", "C13", "C19", "C20"]}
 
 TEXT = {
     "C04": {
@@ -56,5 +56,17 @@ TEXT = {
         "design_ref": "DESIGN.md section 5 C10, section 3.4",
         "level_text": "Fault enumeration per sampled history: for every generated prefix the killed invocation is first run dry to list all crash points (cache.init.*, run.task.before/after, task.cmd.before/after, run.dump.before/after) and all cache writes; it is then repeated from the same disk snapshot once per crash point and once per byte prefix of each cache write (quick: k in {0,1,len/2,len-1,len}+4 seeded; thorough: every k for a third of the cases), dying there or (1 in 3) returning ENOSPC/EIO; each is followed by 2-3 continuations of edits/reverts and unforced runs. A later reported skip must be legal w.r.t. last[] updated with what completed before the kill, a later failure must mention the cache. Exhaustive over crash points per history, sampling over histories.",
         "level_note": "Trusted: kill = sentinel panic at a simhook.Point (deferred calls run but write no project state); torn write = O_TRUNC + k bytes, as os.WriteFile would leave it; no power-loss semantics.",
+    },
+    "C17": {
+        "technique": "deterministic simulation: seeded directory chains, bounded-liveness step budget at the ReadDir seam, ReadDir failure injection",
+        "design_ref": "DESIGN.md section 5 C17",
+        "level_text": "Seeded exploration of directory chains of depth <= 4 (each level: nothing / entries sorting before and/or after / regular spokfile / directory named spokfile), every start level, stop at any level or an unrelated directory, start directory sometimes removed; the real file.Find (and the in-process CLI with cwd=start, HOME=stop) runs with a step budget of depth(start)+2 directory reads enforced at simhook.Point(find.readdir), so non-termination is detected as a budget overrun without a wall clock. The space per depth is small and is covered many times over; still sampling.",
+        "level_note": "Trusted: the sandbox holds no spokfile above the simulated $HOME; tmpfs ReadDir ordering (sorted by name, as os.ReadDir guarantees).",
+    },
+    "C05": {
+        "technique": "deterministic simulation: evolving seeded disk trees expanded by the real file/doublestar code, independent reference matcher as oracle",
+        "design_ref": "DESIGN.md section 5 C05",
+        "level_text": "Seeded exploration: trees are subsets of a 16-path pool (hidden files/dirs at top level and nested, names sorting before/after the dot entries, empty dirs) x 22 patterns as dependency and output patterns; the tree evolves for 1-4 steps and every state is expanded twice through fresh file.New + SpokFile.Run; regular files of the expansion must equal the reference matcher's answer and be identical on re-expansion. End to end the same meaning is exercised inside cachehist (C01/C02 with glob dependencies).",
+        "level_note": "Trusted: the reference matcher (60 lines, own implementation) for the generator's pattern language; os.Lstat to tell regular files from directories.",
     },
 }
